@@ -280,7 +280,7 @@ func (lw *loopWorld) exec(f []string) {
 			}
 		}
 	case "sched", "tcancel", "scheduled":
-		if o := lw.objs[atoi(f[1])]; o == nil {
+		if o := lw.objs[atoi(f[1])]; o == nil || o.timer == nil {
 			return
 		}
 	case "close":
@@ -1373,12 +1373,17 @@ func loopEnum(args []string, w *bufio.Writer) {
 	}
 	// ... or cancels and re-arms the other timer: its event of this batch is stale and must not lose the new schedule
 	for _, re := range []string{"once 1", "once 3", "rep 1"} {
-		emit("obj 1 timer", "obj 2 timer", "prog 11 tcancel 2 ; sched 2 "+re+" op=+", "prog 12 tcancel 1 ; sched 1 "+re+" op=+", "sched 1 once 1 op=11", "sched 2 once 1 op=12",
-			"sleep 3", "poll", "pending", "scheduled 1", "scheduled 2", "sleep 5", "poll", "poll", "pending", "scheduled 1", "scheduled 2", "tcancel 1", "tcancel 2", "pending")
-		emit("obj 1 timer", "obj 2 tcp", "prog 12 tcancel 1 ; sched 1 "+re+" op=+", "sched 1 once 1 op=11", "read 2 4 op=12", "peer 2 write 4", "sleep 3", "poll", "pending",
-			"scheduled 1", "sleep 5", "poll", "poll", "pending", "scheduled 1", "tcancel 1", "pending")
-		emit("obj 1 timer", "prog 12 tcancel 1 ; sched 1 "+re+" op=+", "sched 1 once 1 op=11", "post op=12", "sleep 3", "poll", "pending", "scheduled 1", "sleep 5", "poll", "poll",
-			"pending", "scheduled 1", "tcancel 1", "pending")
+		// (a one-shot re-arm is left for the drain phase, which waits for it: it must fire)
+		tail := []string{"setdisp 0"}
+		if re == "rep 1" {
+			tail = []string{"tcancel 1", "tcancel 2", "pending"}
+		}
+		emit(append([]string{"obj 1 timer", "obj 2 timer", "prog 11 tcancel 2 ; sched 2 " + re + " op=+", "prog 12 tcancel 1 ; sched 1 " + re + " op=+", "sched 1 once 1 op=11", "sched 2 once 1 op=12",
+			"sleep 3", "poll", "pending", "scheduled 1", "scheduled 2", "sleep 5", "poll", "poll", "pending", "scheduled 1", "scheduled 2"}, tail...)...)
+		emit(append([]string{"obj 1 timer", "obj 2 tcp", "prog 12 tcancel 1 ; sched 1 " + re + " op=+", "sched 1 once 1 op=11", "read 2 4 op=12", "peer 2 write 4", "sleep 3", "poll", "pending",
+			"scheduled 1", "sleep 5", "poll", "poll", "pending", "scheduled 1"}, tail...)...)
+		emit(append([]string{"obj 1 timer", "prog 12 tcancel 1 ; sched 1 " + re + " op=+", "sched 1 once 1 op=11", "post op=12", "sleep 3", "poll", "pending", "scheduled 1", "sleep 5", "poll", "poll",
+			"pending", "scheduled 1"}, tail...)...)
 	}
 	for _, act := range []string{"close", "cancel"} {
 		for _, kind := range streamKinds {
